@@ -283,10 +283,13 @@ impl Options {
 	pub fn load_metadata_file(path: &Path) -> Result<Option<Metadata>> {
 		use std::{io::BufRead, str::FromStr};
 
-		if !path.exists() {
-			return Ok(None)
-		}
-		let file = std::io::BufReader::new(try_io!(std::fs::File::open(path)));
+		// There is no database here only if there is no such file: `exists()` says the same for
+		// every failure to look at it, and the caller then writes new metadata with a new salt.
+		let file = match std::fs::File::open(path) {
+			Err(e) if e.kind() == std::io::ErrorKind::NotFound => return Ok(None),
+			Err(e) => return Err(Error::Io(e)),
+			Ok(file) => std::io::BufReader::new(file),
+		};
 		let mut salt = None;
 		let mut columns = Vec::new();
 		let mut version = 0;
